@@ -1,6 +1,6 @@
 """C11 — multithreaded compression under every schedule of the bound."""
 RULE = ('drivers D1 (3 jobs, one e_end call), D2 (continue/flush/continue/end with 7-byte output), D3 (LDM + checksum, 6 jobs), D4 (overlapLog x prefix/CDict), '
-        'D5 (level changed between jobs), D6 (frame abandoned after k calls by reset or free, then a new frame), D10 (abandoned, then a frame with more workers), D12 (flush carrying new input while every worker is busy), D14 (overlap as large as a job, half-size first job, one job of input per call: round-buffer re-use), D13 (level changed between 1 MiB jobs with the level-derived default window, repeats 700 000 bytes back), D9 (worker count changed between frames) run the real '
+        'D5 (level changed between jobs), D6 (frame abandoned after k calls by reset or free, then a new frame), D10 (abandoned, then a frame with more workers), D12 (flush carrying new input while every worker is busy), D14 (overlap as large as a job, half-size first job, one job of input per call: round-buffer re-use), D16 (LDM, 3-4 workers, 16 jobs fed two at a time), D15 (rsyncable, 256 KiB jobs, 2.5 MiB, end / flush with and without payload), D13 (level changed between 1 MiB jobs with the level-derived default window, repeats 700 000 bytes back), D9 (worker count changed between frames) run the real '
         'ZSTD_compressStream2 + zstdmt + pool code with 1 KiB jobs under the deterministic scheduler; every schedule with <= P preemptions and <= D deviations is executed; '
         'plus two seam harnesses that call the serial-section functions (jobs arriving in every order, with an error-path job skipping ahead) and its buffer / cctx pools directly from 2-5 threads under EVERY schedule (state cache, no bound); oracles: terminates, frame decodes to the input (library + reference decoder, checksum), completed flush decodable, one output per subject; '
         'distinct = distinct (output, switch count); non-trivial = more than 4 thread switches')
@@ -12,20 +12,21 @@ TSAN = {'TSAN_OPTIONS': 'halt_on_error=1:report_signal_unsafe=0:die_after_fork=0
 def run(vc, tier):
     c = vc.Check('C11', tier, 'model_checking', RULE)
     kw = dict(engine_srcs=ENG)
-    plan = [(2, 2, 2), (3, 2, 2), (4, 1, 2), (5, 2, 2), (12, 2, 2), (14, 1, 1), (9, 1, 2), (10, 1, 1), (1, 2, 2), (6, 1, 1)] if tier == 'quick' else [(2, 2, 3), (3, 2, 3), (4, 2, 3), (5, 2, 3), (12, 2, 3), (14, 2, 2), (9, 2, 2), (10, 1, 2), (1, 3, 3), (6, 2, 2)]
+    plan = [(2, 2, 2), (3, 2, 2), (4, 1, 2), (5, 2, 2), (12, 2, 2), (14, 1, 1), (16, 1, 1), (9, 1, 2), (10, 1, 1), (1, 2, 2), (6, 1, 1)] if tier == 'quick' else [(2, 2, 3), (3, 2, 3), (4, 2, 3), (5, 2, 3), (12, 2, 3), (14, 2, 2), (16, 1, 1), (9, 2, 2), (10, 1, 2), (1, 3, 3), (6, 2, 2)]
     left = len(plan)
     for drv, P, D in plan:
         c.run_vx_unit('c11-d%d' % drv, SRC, 'sched-asan', ['--driver', drv, '--P', P, '--D', D, '--exec-timeout', 20000], share=1.0 / left, **kw)
         left -= 1
     # parameter change between jobs with the level-derived default window: 6 level pairs x 1-2 workers, 2.5 MiB input, default schedule only
     c.run_vx_unit('c11-d13', SRC, 'sched-asan', ['--driver', 13, '--P', 0, '--D', 0, '--exec-timeout', 120000], share=0.5, **kw)
+    c.run_vx_unit('c11-d15', SRC, 'sched-asan', ['--driver', 15, '--P', 0, '--D', 0, '--exec-timeout', 60000], share=0.5, **kw)      # rsyncable with real synchronisation points
     # narrowest seams, no preemption bound (state cache): serial section ticket protocol, buffer / cctx pools
     for seam in (0, 1):
         c.run_vx_unit('c11-seam%d' % seam, ['harness/c11_seams.c', 'ref/edu_decoder.c'], 'sched-asan', ['--seam', seam, '--maxjobs', 3 if tier == 'quick' else 4, '--exec-timeout', 20000], engine_srcs=ENG, exclude=('zstdmt_compress.c',), share=0.5)
     # data races: the same drivers and seams in the sched-tsan build.  ThreadSanitizer sees only the happens-before edges of the
     # modelled primitives (engine/vsched.c announces mutex release -> acquire; create / join are the real intercepted calls), so
     # two accesses ordered only by the cooperative schedule are reported, in every explored schedule.
-    rplan = [(2, 1, 1), (3, 1, 1), (12, 1, 1), (14, 1, 1), (6, 1, 1), (10, 1, 1), (9, 1, 1), (4, 1, 1), (5, 1, 1)] if tier == 'quick' else [(2, 2, 2), (3, 2, 2), (12, 2, 2), (14, 2, 2), (6, 2, 2), (10, 1, 2), (9, 2, 2), (4, 2, 2), (5, 2, 2), (1, 2, 2)]
+    rplan = [(2, 1, 1), (3, 1, 1), (12, 1, 1), (14, 1, 1), (16, 1, 1), (6, 1, 1), (10, 1, 1), (9, 1, 1), (4, 1, 1), (5, 1, 1)] if tier == 'quick' else [(2, 2, 2), (3, 2, 2), (12, 2, 2), (14, 2, 2), (16, 2, 1), (6, 2, 2), (10, 1, 2), (9, 2, 2), (4, 2, 2), (5, 2, 2), (1, 2, 2)]
     left = len(rplan)
     for drv, P, D in rplan:
         c.run_vx_unit('c11-race-d%d' % drv, SRC, 'sched-tsan', ['--driver', drv, '--P', P, '--D', D, '--exec-timeout', 60000], share=0.7 / left, env=TSAN, **kw)
